@@ -30,7 +30,7 @@ static bool documented(econf_err e) {
          e == ECONF_EMPTY_SECTION_NAME || e == ECONF_MISSING_DELIMITER;
 }
 
-#define MAXE (PLINES)
+#define MAXE (PLINES)   /* number of lines of the file */
 static void list_keys(econf_file *ef, const char *grp) {
   char **keys = NULL; size_t kc = 0;
   if (econf_getKeys(ef, grp, &kc, &keys) != ECONF_SUCCESS) return;
